@@ -10,6 +10,15 @@ pub use crate::component::verif_hooks as bitrepr;
 pub use crate::lpc::verif_hooks as lpc;
 pub use crate::rice::verif_hooks as rice;
 
+/// Crate-private constants.
+pub mod constants {
+    pub const MIN_BLOCK_SIZE_FOR_PREDICTION: usize = crate::constant::MIN_BLOCK_SIZE_FOR_PREDICTION;
+    pub const DEFAULT_ENTROPY_ESTIMATOR_PARTITIONS: usize =
+        crate::constant::DEFAULT_ENTROPY_ESTIMATOR_PARTITIONS;
+    pub const MAX_ENTROPY_ESTIMATOR_PARTITIONS: usize =
+        crate::constant::MAX_ENTROPY_ESTIMATOR_PARTITIONS;
+}
+
 use std::sync::RwLock;
 
 /// Callback invoked at every scheduling point of `par.rs`: `(event name, a, b)`.
